@@ -190,7 +190,7 @@ def finaliser_obligations(quick):
     obs = []
     for cls in ('AvgAggregator', 'VarianceAggregator'):
         src = 'from vf import astsmt\nastsmt.decide(%r)\n' % cls
-        o = Obl('finaliser_formula[%s]' % cls, src, fn='get_final', twin=None, timeout=120, engine='script',
+        o = Obl('finaliser_formula[%s]' % cls, src, fn='get_final', twin=None, timeout=120, engine='script', replayer=('vf.astsmt', 'replay', [cls]),
                 meta={'function': 'rbql_engine.%s.get_final (AST -> z3 Int/Real)' % cls, 'bounds': 'every integer accumulator state with count >= 1; real arithmetic (IEEE rounding outside)'})
         obs.append(o)
     return obs
